@@ -23,7 +23,7 @@ chunk index (unit)
 
 ranged pipeline (system)
 * `rw.reset maxChunkSize` · `rw.write ts:msgLen:fldLen[*N],…` → OnWrite calls, start/end, `CORRUPTED c,…`
-* `rw.writenoindex …` (journal only: the writer is parked before `onWriteCIndex`) · `rw.notify` (the parked notifications are delivered)
+* `rw.writenoindex …` (journal only: the writer is parked before `onWriteCIndex`) · `rw.notify` (the parked notifications are delivered) · `rw.dropstale` (a reader's `dropStale` has removed the entries older than their chunk, its `lightFill` has not finished)
 * `rw.rebuild <dense chunk id|all>` · `rw.autorebuild` (rebuild the chunks the last write reported corrupted) · `rw.hull` → `cid:cnt:min:max …` · `rw.points cid`
 * `r.windows lo hi` → `cid:minPos:maxPos:count …` of a fresh selector (bounds `none` = absent)
 * `r.scan lo hi page` → `got=<runs> spec=<runs> cls=<2,3,41,4,24> fix2=<0|1|-> fix3=<0|1|-> fix23=<0|1|-> fix41=<0|1|-> fixset=<smallest set of repairs {3,2,41} that restores the specification answer|->`
@@ -195,6 +195,14 @@ def step (d : DS) (toks : List String) : DS × String :=
     let recs := parseRecs spec
     let (j', out) := WriteLoop.serviceWrite d.wj recs
     ({ d with wj := j', allTs := d.allTs ++ (recs.map (·.ts)).toArray, batches := (recs.map (·.ts)) :: d.batches, layout := none, pendingCalls := out.calls, phLive := false }, WriteLoop.render out)
+  | ["rw.dropstale"] =>
+    -- a reader's `syncChunks` has run its first critical section (`dropStale`): entries older than their chunk are gone;
+    -- the reader is still busy with `lightFill`, so nothing has been re-derived yet
+    let drop (ci : CIndex.St) : CIndex.St := { ci with chunks := ci.chunks.filter (fun c =>
+        match d.wj.chunks.find? (fun k => k.id == c.id) with
+        | some k => !((!Generated.C02.staleDropOnlyForSnapshotEntries || c.loaded) && k.cnt > c.recs)
+        | none => true) }
+    ({ d with rcidx := drop d.rcidx, rcidx2 := drop d.rcidx2, rcidx3 := drop d.rcidx3, rcidx4 := drop d.rcidx4 }, "ok")
   | ["rw.notify"] =>
     -- the parked writer continues: its OnWrite notifications reach the chunk index now
     let app (ci : CIndex.St) : CIndex.St := d.pendingCalls.foldl (fun ci (call : Nat × Nat × Nat × Int × Int) =>
